@@ -340,6 +340,12 @@ func (p *Parsed) refactorSites(r *rand.Rand, i int, kind string) []site {
 			if !isInt(p.typeOf(x.X)) || !isInt(p.typeOf(x.Y)) || !simpleOperand(x.X) || !simpleOperand(x.Y) {
 				return
 			}
+			// "already-evaluated operands": a variable captured by a function literal (or whose
+			// address is taken) lives in memory, reading it IS an evaluation (an SSA load), and
+			// exchanging two such reads reorders instructions. Not in the property's catalogue.
+			if p.inMemory(i, x.X) || p.inMemory(i, x.Y) {
+				return
+			}
 			if p.str(x.X) == p.str(x.Y) {
 				return
 			}
@@ -371,6 +377,47 @@ func (p *Parsed) refactorSites(r *rand.Rand, i int, kind string) []site {
 		}
 	})
 	return sites
+}
+
+// inMemory reports whether operand e is an identifier of a variable that is captured by a
+// function literal or has its address taken inside group gi.
+func (p *Parsed) inMemory(gi int, e ast.Expr) bool {
+	for {
+		pe, ok := e.(*ast.ParenExpr)
+		if !ok {
+			break
+		}
+		e = pe.X
+	}
+	id, ok := e.(*ast.Ident)
+	if !ok {
+		return false
+	}
+	obj := p.Info.Uses[id]
+	if obj == nil {
+		return false
+	}
+	found := false
+	p.walk(gi, func(n ast.Node, stack []ast.Node) {
+		switch x := n.(type) {
+		case *ast.Ident:
+			if p.Info.Uses[x] != obj {
+				return
+			}
+			for _, a := range stack {
+				if lit, ok := a.(*ast.FuncLit); ok && !(obj.Pos() >= lit.Pos() && obj.Pos() <= lit.End()) {
+					found = true
+				}
+			}
+		case *ast.UnaryExpr:
+			if x.Op == token.AND {
+				if xi, ok := x.X.(*ast.Ident); ok && p.Info.Uses[xi] == obj {
+					found = true
+				}
+			}
+		}
+	})
+	return found
 }
 
 var renameSeq atomic.Int64
@@ -431,6 +478,9 @@ func (p *Parsed) renameFunc(r *rand.Rand, gi int, rename map[string]string) (App
 		return Applied{}, false
 	}
 	nn := fmt.Sprintf("%sRn%d", name, r.Intn(1000))
+	if r.Intn(2) == 0 {
+		nn = fmt.Sprintf("Rn%d%s", r.Intn(1000), name) // the old name is not a prefix of the new one
+	}
 	ast.Inspect(p.File, func(n ast.Node) bool {
 		if id, ok := n.(*ast.Ident); ok {
 			if p.Info.Defs[id] == obj || p.Info.Uses[id] == obj {
@@ -695,4 +745,37 @@ func (p *Parsed) Mutate(r *rand.Rand, gi int, prefer string) (Applied, bool) {
 	before := p.str(s.node)
 	s.apply()
 	return Applied{Kind: s.kind, Class: s.class, Ctx: s.ctx, Before: before, After: p.str(s.node)}, true
+}
+
+// CanonLiterals replaces, in group gi, every literal the default policy documents as
+// abstracted (strings, integers outside [-16,16]) by one canonical literal of its kind
+// ("S", 17 / -17). Two functions whose canonicalised forms behave alike differ, as far as
+// execution can tell, only in abstracted literals.
+func (p *Parsed) CanonLiterals(gi int) int {
+	n := 0
+	p.walk(gi, func(nd ast.Node, stack []ast.Node) {
+		lit, ok := nd.(*ast.BasicLit)
+		if !ok || p.literalFrozen(lit, stack) {
+			return
+		}
+		switch lit.Kind {
+		case token.STRING:
+			if len(stack) > 0 {
+				if _, isImp := stack[len(stack)-1].(*ast.ImportSpec); isImp {
+					return
+				}
+			}
+			if lit.Value != `"S"` {
+				lit.Value = `"S"`
+				n++
+			}
+		case token.INT:
+			v, ok := signedVal(lit, stack)
+			if ok && (v < -16 || v > 16) && lit.Value != "17" {
+				lit.Value = "17"
+				n++
+			}
+		}
+	})
+	return n
 }
